@@ -21,6 +21,7 @@ let abspar file child =
   let nl = Array.length lines in
   let st = ref (pinit O) in
   let events = ref 0 in
+  let evs = ref [] and lastset = ref None in
   let skip = ref None in
   let fresh : (string, bool) Hashtbl.t = Hashtbl.create 16 in     (* spawned since the last quiescent point *)
   let setup : (int, bool) Hashtbl.t = Hashtbl.create 8 in
@@ -31,6 +32,8 @@ let abspar file child =
   let nd s = n_of_decimal s and ds x = decimal_of_n x in
   let step lineno ev what =
     incr events;
+    evs := ev :: !evs;
+    (match ev with PSet (_, u) -> lastset := Some u | _ -> ());
     match pstep !st ev with
     | Some s' -> st := s'
     | None -> diff "line %d: abstract event %s is not enabled in the parent model" lineno what in
@@ -72,7 +75,20 @@ let abspar file child =
        | [ "QUIESCENT" ] ->
            Hashtbl.reset fresh;
            incr checked;
-           if not (pquiescentb !st) then diff "line %d: the real run is quiescent, the parent model is not" (!i + 1)
+           if not (pquiescentb !st) then diff "line %d: the real run is quiescent, the parent model is not" (!i + 1);
+           (* the premises of the convergence theorems, evaluated on the event sequence of this real run *)
+           if !touched then begin
+             let tr = List.rev !evs in
+             let co = causally_ordered0 (pinit O) tr and wds = writers_drain_separated (pinit O) tr in
+             Printf.printf "ABSPREMISE causal=%d drainsep=%d writes=%d\n" (if co then 1 else 0) (if wds then 1 else 0)
+               (List.length (List.filter (fun e -> match e with PSet _ -> true | _ -> false) tr));
+             if wds && not co then diff "line %d: a drain-separated history is not causally ordered (C05_drain_separated_is_causal fails on it)" (!i + 1);
+             if co && pquiescentb !st then
+               List.iter (fun p ->
+                   incr checked;
+                   if ppar !st p <> !lastset then
+                     diff "line %d: causally ordered history, quiescent, yet peer %s does not have the last parent in the parent model (C05_causal_converge fails on it)" (!i + 1) (ds p)) (n_of_int 0 :: pconn !st)
+           end
        | "ORD" :: p :: order ->
            let pi = int_of_string p in
            let poll = if pi = 0 then "SrvPoll" else "CliPoll" and ann = if pi = 0 then "SrvParented" else "CliParented" in
